@@ -139,3 +139,28 @@ Proof.
     intros [= <-]. exists k'. split; [reflexivity|]. apply str_eqb_eq in E.
     rewrite app_assoc, <- E. symmetry. apply firstn_skipn.
 Qed.
+
+(* ---- C10 / C07: the argument options in order: the first value of a key wins, a second WithArgument is an error ---- *)
+Require Import Args ArgsProofs.
+Example ex_options :
+  apply_aopts [] [OArg (lit "k") (Int 1); OArgs [(lit "k", Int 2); (lit "j", Int 3)]; OArg (lit "z") (List [Int 9007199254740991])]
+    = Ok [(lit "k", Int 1); (lit "j", Int 3); (lit "z", List [Int 9007199254740991])] /\
+  apply_aopts [] [OArg (lit "k") (Int 1); OArg (lit "k") (Int 2)] = Err 1 /\
+  apply_aopts [] [OArg (lit "k") (Map [(lit "deep", List [Int 9007199254740992])])] = Err 2 /\
+  c_to_ipld [(lit "k", Int 1); (lit "j", Int 3)] = Map [(lit "j", Int 3); (lit "k", Int 1)].
+Proof. repeat split; vm_compute; reflexivity. Qed.
+
+(* ---- C06 end to end: the unforgeability premise is satisfiable (a scheme under which exactly one signed part
+   verifies), and the theorem then applies to the sealed example token ---- *)
+Definition ex_sp : node := Map [(hdr_key, Bytes [1; 2]); (dlg_tag, dlg_to_payload ex_dtok)].
+Definition ex_verify1 (d : did) (m s : str) : bool := str_eqb m (encode ex_sp).
+Example ex_unforgeable :
+  (forall d m s, ex_verify1 d m s = true -> exists sp, In sp [ex_sp] /\ wf sp /\ m = encode sp) /\
+  env_decode ex_verify1 ex_header dtok dlg_from_payload dlg_tag (env_seal ex_sign [1; 2] dlg_tag (dlg_to_payload ex_dtok)) = Ok ex_dtok.
+Proof.
+  split.
+  - intros d m s H. exists ex_sp. split; [left; reflexivity|]. split.
+    + vm_compute. repeat split; try reflexivity; try discriminate.
+    + apply str_eqb_eq. exact H.
+  - vm_compute. reflexivity.
+Qed.
